@@ -121,7 +121,7 @@ func runAgentCloseCase(c *vlib.Ctx, self string, in acIn) map[string]any {
 			cmd.Process.Kill()
 			vlib.Fatal("fake agent said %q", s)
 		}
-	case <-time.After(60 * time.Second):
+	case <-time.After(180 * time.Second):
 		cmd.Process.Kill()
 		vlib.Fatal("fake agent did not start")
 	}
